@@ -3,7 +3,7 @@
    REPEX_state.initiate/loop, and the task-runner protocol of asyncrunner.py). *)
 From Coq Require Import ZArith List Bool Lia Permutation.
 Import ListNotations.
-From Inf Require Import model.SchedM proofs.SchedP.
+From Inf Require Import model.SchedM proofs.SchedP proofs.SchedCrashP.
 Open Scope nat_scope.
 
 (* For every worker count W >= 1, every start step c0 <= T (0 or ANY restart point, also one with
@@ -23,6 +23,31 @@ Theorem C17_restart_counter : forall s choice,
   length (completed (complete s choice)) = S (length (completed s)).
 Proof. exact complete_records. Qed.
 Print Assumptions C17_restart_counter.
+
+(* Stop + restart.  The run (any W, any start step c0, any completion order) is stopped after ANY
+   number n of consumed results (between two iterations of the main loop; [main_prefix] is the
+   first n iterations of main_loop, see C17_prefix_is_scheduler); a new run is started from the
+   step counter found in the restart file, with ANY worker count W2 and completion order: the
+   file's counter is c0 + n, no job ordinal is both consumed and still in flight, the new run ends,
+   and the results consumed by the two runs add up to exactly T - c0; nothing stays in flight. *)
+Theorem C17_stop_restart_exact : forall c0 T W, 1 <= W -> c0 <= T ->
+  forall n W2 sched1 sched2, n <= T - c0 -> 1 <= W2 ->
+  exists s0 s', init_phase (W + 2) (start c0 T W) = Some s0 /\
+    let sk := main_prefix n s0 sched1 in
+    restart_cstep sk = c0 + n /\ cstep sk = c0 + n /\ length (completed sk) = n /\
+    NoDup (completed sk ++ pending sk) /\
+    scheduler (restart_cstep sk) T W2 sched2 = Some s' /\
+    length (completed sk) + length (completed s') = T - c0 /\
+    cstep s' = T /\ pending s' = [] /\ restart_cstep s' = T /\ restart_locked s' = [].
+Proof. exact crash_restart_total. Qed.
+Print Assumptions C17_stop_restart_exact.
+
+(* the stopped state is one the uninterrupted scheduler passes through *)
+Theorem C17_prefix_is_scheduler : forall c0 T W, 1 <= W -> c0 <= T -> forall n sched, n <= T - c0 ->
+  exists s0, init_phase (W + 2) (start c0 T W) = Some s0 /\
+    scheduler c0 T W sched = main_loop (T - c0 - n + 2) (main_prefix n s0 sched) (skipn n sched).
+Proof. exact prefix_is_scheduler. Qed.
+Print Assumptions C17_prefix_is_scheduler.
 
 (* The task runner, for EVERY interleaving of submissions, wrapper take-overs, task
    completions (results or exceptions), deliveries and the stop request that the protocol
@@ -67,3 +92,10 @@ Example C17_example_runner :
                                   EFinish 1 (Res 1); EDeliver; EFinish 0 (Res 3); EDeliver; EStop; EDeliver] = Some r
             /\ delivered r = [(0, Res 1); (1, Exc 7); (2, Res 3)] /\ quiescent r = true.
 Proof. eexists. vm_compute. repeat split. Qed.
+
+Example C17_example_stop_restart :
+  exists s0, init_phase (3 + 2) (start 0 6 3) = Some s0 /\
+    let sk := main_prefix 2 s0 [2; 0] in
+    completed sk = [2; 0] /\ pending sk = [1; 3; 4] /\ restart_cstep sk = 2 /\ restart_locked sk = [1; 3] /\
+    exists s', scheduler (restart_cstep sk) 6 2 [1; 0; 0; 0] = Some s' /\ length (completed s') = 4.
+Proof. eexists. split; [vm_compute; reflexivity|]. vm_compute. repeat split. eexists. split; reflexivity. Qed.
